@@ -365,8 +365,11 @@ def run_scan(ctx, base, rng):
             w.mkcopy(node, f, st[0], st[1], size_b=f.size_b)
             pre[(parts[0], "/".join(parts[1:]))] = st
         rp["preregistered"] = {"/".join(k): v for k, v in pre.items()}
+        # a scan may be asked not to register anything new (only files already registered gain a copy)
+        register = rng.random() < 0.65
+        rp["register"] = register
         (root / "toplevel").write_text("x")
-        w.ArchiveFileImportRequest.create(node=node, path=rng.choice([".", "acq1", "acq2"]) if (root / "acq1").exists() and (root / "acq2").exists() else ".", recurse=True, register=True, completed=False)
+        w.ArchiveFileImportRequest.create(node=node, path=rng.choice([".", "acq1", "acq2"]) if (root / "acq1").exists() and (root / "acq2").exists() else ".", recurse=True, register=register, completed=False)
         scanned = w.ArchiveFileImportRequest.get(id=1).path
         for _ in range(3):
             res = sim.iterate("h1")
@@ -388,6 +391,8 @@ def run_scan(ctx, base, rng):
                 exp[(rel.parts[0], "/".join(rel.parts[1:]))] = (len(data), hashlib.md5(data).hexdigest())
         got = {(f.acq.name, f.name): (f.size_b, f.md5sum) for f in w.ArchiveFile.select()}
         copies = {(c.file.acq.name, c.file.name): (c.has_file, c.wants_file) for c in w.ArchiveFileCopy.select()}
+        if not register:
+            exp = {k: v for k, v in exp.items() if k in pre}
         # files registered beforehand that lie outside the scanned directory stay as they were
         for k, st in pre.items():
             if k not in exp:
